@@ -25,8 +25,17 @@ Partial-order reduction (exact): purely in-memory steps (attribute set,
 session.delete() marking) are glued to the following database step of the same
 session; they are invisible to every other session.
 
-Mutations caught (private copy, `VF_REPO=/tmp/wt-bulk ./check C44`):
-  (filled in from the actual runs, see end of file docstring)
+Mutations caught (private copy, `VF_REPO=/tmp/wt-bulk/c44 ./check C44`), all in orm/persistence.py:
+  v1 _emit_update_statements.update_stmt: version criterion dropped from the UPDATE WHERE clause
+     -> lost-update / version-not-new / version-change-count (P1+P1: s1.L s0.L s0.W s0.C s1.W s1.C)
+  v2 _emit_update_statements: `rows != len(records)` weakened to `rows > len(records)`
+     -> lost-update, commit-result, version-change-count
+  v3 _collect_update_commands: `val = mapper.version_id_generator(update_version_id)` -> `val = update_version_id`
+     -> version-not-new, version-change-count
+  v4 _emit_delete_statements.delete_stmt: version criterion dropped from the DELETE
+     -> lost-update (P1+P2: s1.L s0.L s0.W s0.C s1.D s1.C)
+  v5 _emit_delete_statements: rowcount mismatch only warns even with versioning (`only_warn = True`)
+     -> lost-update, commit-result, final-row
 """
 from __future__ import annotations
 
